@@ -33,10 +33,14 @@ type hwmonFanFeat struct {
 	Ch    int  `json:"ch"`
 	Input bool `json:"input"` // fanN_input present (otherwise only fanN_min: feature without input)
 	Pwm   bool `json:"pwm"`   // pwmN and pwmN_enable present
+	// content of fanN_input (and pwmN) at discovery time: "" = a plausible reading,
+	// "0", "neg", "empty", "garbage", "dir" (a directory: present but unreadable, EISDIR)
+	Val string `json:"val,omitempty"`
 }
 type hwmonTempFeat struct {
-	N     int  `json:"n"`
-	Input bool `json:"input"` // tempN_input present (otherwise only tempN_max)
+	N     int    `json:"n"`
+	Input bool   `json:"input"`         // tempN_input present (otherwise only tempN_max)
+	Val   string `json:"val,omitempty"` // content of tempN_input at discovery time, as for fans
 }
 type hwmonChip struct {
 	Id    int             `json:"id"`   // directory hwmon<Id>; identity of the chip across enumeration orders
@@ -128,6 +132,27 @@ func hwmonGuarded(f func()) (panicked bool, isRuntime bool, text string) {
 	return
 }
 
+// hwmonWriteVal writes a device file whose content is chosen by val (def = the plausible reading).
+// Position and channel of a device depend on the presence of the file only, never on its content.
+func hwmonWriteVal(path, val, def string) {
+	switch val {
+	case "0":
+		hwmonWrite(path, "0\n")
+	case "neg":
+		hwmonWrite(path, "-5000\n")
+	case "empty":
+		hwmonWrite(path, "")
+	case "garbage":
+		hwmonWrite(path, "N/A \x00\xff\n")
+	case "dir":
+		if err := os.MkdirAll(path, 0o755); err != nil {
+			panic(err)
+		}
+	default:
+		hwmonWrite(path, def)
+	}
+}
+
 func hwmonWrite(path, content string) {
 	if err := os.WriteFile(path, []byte(content), 0o644); err != nil {
 		panic(err)
@@ -188,18 +213,22 @@ func hwmonRun(ctx *Ctx, in hwmonIn) (hwmonObs, string, []string) {
 		}
 		for _, f := range ch.Fans {
 			if f.Input {
-				hwmonWrite(filepath.Join(d, "fan"+itoa(f.Ch)+"_input"), "1200\n")
+				hwmonWriteVal(filepath.Join(d, "fan"+itoa(f.Ch)+"_input"), f.Val, "1200\n")
 			} else {
 				hwmonWrite(filepath.Join(d, "fan"+itoa(f.Ch)+"_min"), "0\n")
 			}
 			if f.Pwm {
-				hwmonWrite(filepath.Join(d, "pwm"+itoa(f.Ch)), "128\n")
+				pv := f.Val
+				if pv == "dir" || pv == "neg" {
+					pv = "empty"
+				}
+				hwmonWriteVal(filepath.Join(d, "pwm"+itoa(f.Ch)), pv, "128\n")
 				hwmonWrite(filepath.Join(d, "pwm"+itoa(f.Ch)+"_enable"), "2\n")
 			}
 		}
 		for _, t := range ch.Temps {
 			if t.Input {
-				hwmonWrite(filepath.Join(d, "temp"+itoa(t.N)+"_input"), "42000\n")
+				hwmonWriteVal(filepath.Join(d, "temp"+itoa(t.N)+"_input"), t.Val, "42000\n")
 			} else {
 				hwmonWrite(filepath.Join(d, "temp"+itoa(t.N)+"_max"), "90000\n")
 			}
@@ -448,6 +477,18 @@ func hwmonRun(ctx *Ctx, in hwmonIn) (hwmonObs, string, []string) {
 			}
 		}
 	}
+	for _, ch := range in.Chips {
+		for _, f := range ch.Fans {
+			if f.Input && f.Val != "" {
+				tags = append(tags, "content:fan-input="+f.Val)
+			}
+		}
+		for _, tf := range ch.Temps {
+			if tf.Input && tf.Val != "" {
+				tags = append(tags, "content:temp-input="+tf.Val)
+			}
+		}
+	}
 	if obs.PwmMissing > 0 {
 		tags = append(tags, "obs:bound-pwm-file-missing")
 	}
@@ -560,10 +601,18 @@ func hwmonGenChip(rng *Rng, id int, name string, hostile bool) hwmonChip {
 		hi = 12 // two-digit channels: fan10 sorts after fan9 numerically, before it lexically
 	}
 	for _, c := range pick(nf, hi) {
-		ch.Fans = append(ch.Fans, hwmonFanFeat{Ch: c, Input: !rng.Chance(1, 6), Pwm: rng.Chance(4, 5)})
+		ff := hwmonFanFeat{Ch: c, Input: !rng.Chance(1, 6), Pwm: rng.Chance(4, 5)}
+		if ff.Input && rng.Chance(1, 4) {
+			ff.Val = []string{"0", "0", "empty", "garbage", "dir"}[rng.Intn(5)]
+		}
+		ch.Fans = append(ch.Fans, ff)
 	}
 	for _, n := range pick(nt, hi) {
-		ch.Temps = append(ch.Temps, hwmonTempFeat{N: n, Input: !rng.Chance(1, 6)})
+		tf := hwmonTempFeat{N: n, Input: !rng.Chance(1, 6)}
+		if tf.Input && rng.Chance(1, 3) {
+			tf.Val = []string{"0", "0", "neg", "empty", "garbage", "dir"}[rng.Intn(6)]
+		}
+		ch.Temps = append(ch.Temps, tf)
 	}
 	return ch
 }
